@@ -217,6 +217,92 @@ def check_xcmp(ck, tool='xcmp'):
         ck.engine(E, f'main of {tool}.cpp: ' + ' '.join(argv[1:]))
     ck.sample({'tool': tool, 'argv_shapes': shapes[:4]})
 
+def zero_rest(E, st, p):
+    """stub of a constructor: leave an all-zero (empty) object so that inlined destructor code runs on valid containers"""
+    o = st.wobj(p.obj); o.zero.append((p.off, o.size)); return None
+
+def check_xcmp_deep(ck, tool='xcmp'):
+    """xcmp::Driver::run itself is executed (not cut): its stages - openFile, parseProgram, each AST pass (Program::accept),
+    LowerDirectives, OptimiseDirectives, hexasm::CodeGen, emitBin - are cut to outcomes, and every creation of a file is an event.
+    No file may be created or written unless every fallible stage succeeded, and then only by emitBin with the right name."""
+    H = MainHarness('main_xcmp.cpp' if tool == 'xcmp' else 'main_xrun.cpp', tool + '_main')
+    M = H.M
+    def rec_str(E, st, a): return bytes(stubs.Str(E, st, a[1]).data())
+    def file_event(kind):
+        def f(E, st, a):
+            nm = None
+            for x in a[1:3]:
+                if isinstance(x, Ptr) and x.obj != 0:
+                    try: nm = bytes(stubs.Str(E, st, x).data()); break
+                    except Exception:
+                        try: nm = E.read_cstr(st, x); break
+                        except Exception: pass
+            st.events.append(('file-create', kind, nm)); return a[0] if kind.endswith('open') else None
+        return f
+    shapes = [['xcmp', 'p.x'], ['xcmp', '-o', 'out.bin', 'p.x'], ['xcmp', '-S', 'p.x']] if tool == 'xcmp' else [['xrun', 'p.x']]
+    rv = z3.BitVec('program_exit_value', 32)
+    for argv in shapes:
+        E = H.engine()
+        def parse_ret(E_, st, a):
+            prog = st.alloc(64, 'Program'); st.objs[prog.obj].zero.append((8, 64))
+            E_.store(st, prog, 8, Ptr(('g', '_ZTVN4xcmp7ProgramE'), 16)); E_.store(st, a[0], 8, prog); return None
+        E.stubs.update({
+            '_ZN4xcmp5Lexer8openFileEPKc': stage('openFile'),
+            '_ZN4xcmp5Lexer8openFileERKNSt7__cxx1112basic_stringIcSt11char_traitsIcESaIcEEE': stage('openFile'),
+            '_ZN4xcmp5Lexer10emitTokensERSo': stage('emitTokens'),
+            '_ZN4xcmp6Parser12parseProgramEv': stage('parseProgram', ret=parse_ret),
+            '_ZN4xcmp7Program6acceptEPNS_10AstVisitorE': stage('AST pass'),
+            '_ZN4xcmp7ProgramD0Ev': stubs.s_nop, '_ZN4xcmp7ProgramD2Ev': stubs.s_nop, '_ZN4xcmp7ProgramD1Ev': stubs.s_nop,
+            '_ZN4xcmp15LowerDirectivesC2ERNS_11SymbolTableERNS_7CodeGenE': stage('LowerDirectives', ret=lambda E_, st, a: zero_rest(E_, st, a[0])),
+            '_ZN4xcmp15LowerDirectivesD2Ev': stubs.s_nop,
+            '_ZN4xcmp18OptimiseDirectivesC2ERNS_11SymbolTableERNS_10CodeBufferE': stage('OptimiseDirectives', ret=lambda E_, st, a: zero_rest(E_, st, a[0])),
+            '_ZN4xcmp18OptimiseDirectivesD2Ev': stubs.s_nop,
+            '_ZN6hexasm7CodeGenC2ERSt6vectorISt10unique_ptrINS_9DirectiveESt14default_deleteIS3_EESaIS6_EE': stage('hexasm::CodeGen', ret=lambda E_, st, a: E_.memset(st, a[0], 0, 88)),
+            '_ZN6hexasm7CodeGenD2Ev': stubs.s_nop,
+            '_ZN6hexasm7CodeGen15emitProgramTextERSo': stage('emitProgramText'),
+            '_ZN6hexasm7CodeGen7emitBinENSt7__cxx1112basic_stringIcSt11char_traitsIcESaIcEEE': stage('emitBin', rec_str),
+            '_ZN4xcmp10CodeBuffer10emitInstrsERSo': stage('emitInstrs'),
+            '_ZN4xcmp7CodeGenD2Ev': stubs.s_nop,
+        })
+        for nm in ('_ZNSt14basic_ofstreamIcSt11char_traitsIcEEC1ERKNSt7__cxx1112basic_stringIcS1_SaIcEEESt13_Ios_Openmode', '_ZNSt13basic_fstreamIcSt11char_traitsIcEEC1ERKNSt7__cxx1112basic_stringIcS1_SaIcEEESt13_Ios_Openmode',
+                   '_ZNSt14basic_ofstreamIcSt11char_traitsIcEEC1EPKcSt13_Ios_Openmode', '_ZNSt13basic_fstreamIcSt11char_traitsIcEEC1EPKcSt13_Ios_Openmode'):
+            E.stubs[nm] = file_event('stream constructor')
+        for nm in ('_ZNSt13basic_filebufIcSt11char_traitsIcEE4openEPKcSt13_Ios_Openmode', '_ZNSt14basic_ofstreamIcSt11char_traitsIcEE4openERKNSt7__cxx1112basic_stringIcS1_SaIcEEESt13_Ios_Openmode',
+                   '_ZNSt13basic_fstreamIcSt11char_traitsIcEE4openERKNSt7__cxx1112basic_stringIcS1_SaIcEEESt13_Ios_Openmode'):
+            E.stubs[nm] = file_event('open')
+        E.stubs['_ZNKSt13basic_filebufIcSt11char_traitsIcEE7is_openEv'] = lambda E_, st, a: 1
+        for nm in ('_ZNSt14basic_ofstreamIcSt11char_traitsIcEED1Ev', '_ZNSt13basic_fstreamIcSt11char_traitsIcEED1Ev', '_ZNSt14basic_ofstreamIcSt11char_traitsIcEE5closeEv', '_ZNSt13basic_fstreamIcSt11char_traitsIcEE5closeEv',
+                   '_ZNSt13basic_filebufIcSt11char_traitsIcEEC1Ev', '_ZNSt13basic_filebufIcSt11char_traitsIcEE5closeEv', '_ZNSt9basic_iosIcSt11char_traitsIcEE4initEPSt15basic_streambufIcS1_E',
+                   '_ZNSt9basic_iosIcSt11char_traitsIcEE5clearESt12_Ios_Iostate', '_ZNSt8ios_baseC2Ev'):
+            E.stubs.setdefault(nm, stubs.s_nop)
+        if tool == 'xrun':
+            E.stubs['_ZN6hexsim9ProcessorC2ERSiRSom'] = lambda E_, st, a: st.events.append(('sim-construct', a[3]))
+            E.stubs['_ZN6hexsim9ProcessorD2Ev'] = stubs.s_nop
+            E.stubs['_ZN6hexsim9Processor4loadEPKcb'] = stage('Processor::load', lambda E_, st, a: E_.read_cstr(st, a[1]), outcomes=1)
+            E.stubs['_ZN6hexsim9Processor3runEv'] = stage('Processor::run', ret=rv, outcomes=1)
+        for r in run_main(H, E, argv):
+            kind, status = status_of(r); oc = outcome_str(r.st); threw = any(k != 'ok' for _, k in oc)
+            creates = [e for e in r.st.events if e[0] == 'file-create']
+            wrote = [e[3] for e in r.st.events if e[0] == 'stage' and e[1] == 'emitBin' and e[2] == 0]
+            ok = True; why = ''
+            if kind not in ('ret', 'exit'): ok, why = False, f"main ends in {kind}: {r.val}"
+            elif threw:
+                if creates: ok, why = False, f"output file {creates[0][2]} is created ({creates[0][1]}) although the source is rejected later: a new empty binary is left behind"
+                elif wrote: ok, why = False, "binary written although a stage failed"
+                elif is_c(status) and status == 0: ok, why = False, "exit status 0 although a stage failed"
+            else:
+                if creates: ok, why = False, f"file {creates[0][2]} created outside emitBin"
+            ck.obligation(ok)
+            if not ok:
+                key = f"{tool}:deep:{why[:50]}"
+                confirmed, detail = True, {}
+                if 'left behind' in why:
+                    confirmed, detail = confirm_cli('xcmp', ['xcmp', '-o', 'fresh.bin', 'p.x'], {'p.x': BAD_X}, lambda rc, created: 'fresh.bin' in created or rc == 0)
+                    key = f"{tool}:file created before the source is accepted"
+                ck.violation(key, f"{tool} {' '.join(argv[1:])}: stages {oc}: {why}", ck.replay_file(key, detail), confirmed)
+        ck.engine(E, f'main of {tool}.cpp + xcmp::Driver::run: ' + ' '.join(argv[1:]))
+    ck.sample({'tool': tool, 'mode': 'Driver::run executed, its stages cut', 'argv_shapes': shapes})
+
 def check_hexsim(ck):
     H = MainHarness('main_hexsim.cpp', 'hexsim_main')
     rv = z3.BitVec('program_exit_value', 32)
@@ -247,9 +333,11 @@ def check_hexsim(ck):
 def main():
     ck = Check('C14', 'other')
     check_hexasm(ck); check_xcmp(ck, 'xcmp'); check_xcmp(ck, 'xrun'); check_hexsim(ck)
+    check_xcmp_deep(ck, 'xcmp')
     ck.assume("the four main() functions are executed from their IR with C++ exception handling modelled; the library stages they call (Lexer::openFile, Parser::parseProgram, hexasm::CodeGen, emitBin, "
               "xcmp::Driver::run, hexsim::Processor::load/run) are cut to an outcome chosen by the engine: returns / throws hexutil::Error / throws std::runtime_error; Processor::run's value is a 32-bit symbol",
               "argv shapes are enumerated (file only; -o/--output before and after the file; -o last; two files; unknown option; listing modes); the solver's share is the outcome vector and the exit value",
+              "xcmp::Driver::run is additionally executed itself with its inner stages (openFile, parseProgram, every AST pass, LowerDirectives, OptimiseDirectives, hexasm::CodeGen, emitBin) cut to outcomes and every stream constructor/open an event: no file is created unless all stages succeeded",
               "what emitBin does with its file (creation, truncation) is decided in C10 ('partial-output'); truncation of the status to 8 bits by the host is outside",
               "diagnostic text (boost::format, operator<<) is cut: that something is printed is an event, its wording is outside")
     ck.crosscheck()
